@@ -369,6 +369,28 @@ func TestC15_Real(t *testing.T) {
 			return
 		}
 	}
+	// ReadSystemFromFile reads through a 4 MiB buffer: cut the file exactly at (and next to) multiples of the buffer size
+	step := 4 << 20
+	for k := 1; k*step < len(img.data); k++ {
+		if !Thorough() && k > 6 && k%4 != 0 {
+			continue
+		}
+		deltas := []int{0}
+		if Thorough() {
+			deltas = []int{-1, 0, 1}
+		}
+		for _, dl := range deltas {
+			off := k*step + dl
+			if off >= len(img.data) {
+				continue
+			}
+			c := c15Case{Kind: "real", Shape: shape, Format: format, Via: "file", Offset: off, Len: len(img.data), Mode: d.mode}
+			sig, msg := checkPrefix(img, off, "file")
+			if !report(c, fmt.Sprintf("real/%s/file/%s/buffer-multiple", format, img.section(off)), sig, msg) {
+				return
+			}
+		}
+	}
 	cliCmds := []string{"cli-prove", "cli-verify", "cli-export-vk", "cli-convert-to-raw", "cli-start"}
 	rapid.Check(t, func(rt *rapid.T) {
 		sec := pick(rt, "section", "proving-key", "proving-key", "verifying-key", "constraint-system", "constraint-system")
